@@ -45,6 +45,7 @@ type frame struct {
 	// loop bookkeeping for the unit frame
 	variant map[int]string // header index -> variant value at loop head
 	loopEntry map[int]*loopSnap // header index -> state at loop entry
+	loopHead  map[int]*loopSnap // header index -> state at the head of the current iteration (after havoc + invariant)
 }
 
 type State struct {
@@ -137,6 +138,12 @@ func (st *State) clone() *State {
 			nf.loopEntry = map[int]*loopSnap{}
 			for k, v := range f.loopEntry {
 				nf.loopEntry[k] = v
+			}
+		}
+		if f.loopHead != nil {
+			nf.loopHead = map[int]*loopSnap{}
+			for k, v := range f.loopHead {
+				nf.loopHead[k] = v
 			}
 		}
 		n.frames = append(n.frames, &nf)
@@ -700,6 +707,9 @@ func (x *Exec) loopEdge(st *State, li *loopInfo, from, to *ssa.BasicBlock) bool 
 		e0.old = nil
 		env.loopEntry = e0
 	}
+	if fr.loopHead != nil && fr.loopHead[to.Index] != nil {
+		env.loopHead = x.snapEnv(st, fr.loopHead[to.Index])
+	}
 	for i, cl := range spec.Invariants {
 		lab := cl.Label
 		if lab == "" {
@@ -763,6 +773,16 @@ func (x *Exec) loopEdge(st *State, li *loopInfo, from, to *ssa.BasicBlock) bool 
 		v := x.name(st, "variant", Val{S: x.clauseTerm(st, spec.Decreases, env), T: types.Typ[types.Int]})
 		fr.variant[to.Index] = v.S
 	}
+	// state at the head of the iteration, for atHead() in `each` clauses and invariants checked at the back edge
+	hE := x.invEnv(st)
+	hs := &loopSnap{vars: hE.vars, heap: map[string]string{}}
+	for k, v := range st.heap {
+		hs.heap[k] = v
+	}
+	if fr.loopHead == nil {
+		fr.loopHead = map[int]*loopSnap{}
+	}
+	fr.loopHead[to.Index] = hs
 	// the ghost call trace restarts at the loop head: clauses after this point see the events since here
 	st.trace = append(st.trace, traceEv{name: "#loop"})
 	return false
@@ -855,6 +875,11 @@ func (x *Exec) clauseTerm(st *State, cl *Clause, env *Env) string {
 		o := *e.loopEntry
 		o.info = e.info
 		e.loopEntry = &o
+	}
+	if e.loopHead != nil {
+		o := *e.loopHead
+		o.info = e.info
+		e.loopHead = &o
 	}
 	v := e.block(cl.Fn.Decl.Body.List)
 	return v.S
